@@ -84,4 +84,33 @@ theorem rnd_err_le_one {x : ℚ} (h : |x| ≤ 1) : |rnd x - x| ≤ 2 ^ (-24:ℤ)
   have := rnd_err (x := x) (k := 1) (by norm_num) (lt_of_le_of_lt h (by norm_num))
   simpa using this
 
+/-- error of one rounding at any magnitude: relative 2^-24 in the normal range, absolute 2^-150 below it -/
+theorem rnd_err_gen (x : ℚ) : |rnd x - x| ≤ 2 ^ (-24:ℤ) * |x| + 2 ^ (-150:ℤ) := by
+  by_cases h : 2 ^ (-126:ℤ) ≤ |x|
+  · have := rnd_rel_err h
+    have : (0:ℚ) < 2 ^ (-150:ℤ) := by positivity
+    linarith
+  · have hlt : |x| < 2 ^ (-125:ℤ) := lt_trans (not_le.mp h) (by norm_num)
+    have := rnd_err (x := x) (k := -125) (by norm_num) hlt
+    have e : (-125:ℤ) - 25 = -150 := by norm_num
+    rw [e] at this
+    have : (0:ℚ) ≤ 2 ^ (-24:ℤ) * |x| := by positivity
+    linarith
+
+/-- `toU32` of a finite non-negative value below 2^32 is its floor -/
+theorem toU32_floor (r : ℚ) (nz : Bool) (h0 : 0 ≤ r) (h1 : r < 2 ^ 32) : ((toU32 (.fin r nz) : ℕ) : ℤ) = ⌊r⌋ := by
+  have hneg : ¬ r < 0 := not_lt.mpr h0
+  have hfl0 : 0 ≤ ⌊r⌋ := Int.floor_nonneg.mpr h0
+  have hfl1 : ⌊r⌋ < 2 ^ 32 := by
+    have : (⌊r⌋ : ℚ) ≤ r := Int.floor_le r
+    have : (⌊r⌋ : ℚ) < 2 ^ 32 := lt_of_le_of_lt this h1
+    exact_mod_cast this
+  simp only [toU32, hneg, ↓reduceIte]
+  have e : r.floor = ⌊r⌋ := rfl
+  rw [e]
+  have hnat : (⌊r⌋.toNat : ℤ) = ⌊r⌋ := Int.toNat_of_nonneg hfl0
+  have hlt : ¬ (⌊r⌋.toNat ≥ 2 ^ 32) := by omega
+  simp only [hlt, ↓reduceIte]
+  exact hnat
+
 end F32
